@@ -1140,6 +1140,26 @@ Definition call_builtin (env : nat) (b : bfn) (args : list val) (kwargs : kwargs
       | VFloat bits _ => ret (VBool (negb ((bits =? 0)%Z || (bits =? 9223372036854775808)%Z)))
       | _ => unsup "Float#B of non-float"
       end
+  | B_Float_eq =>
+      match args with
+      | a :: b :: _ =>
+          st <- get_st ;;
+          match as_float W st a, as_float W st b with
+          | Some x, Some y => ret (VBool (f_eq x y))
+          | _, _ => ret (VBool false)
+          end
+      | _ => tyerr "== requires at least 2 args"
+      end
+  | B_Float_cmp =>
+      match args with
+      | a :: b :: _ =>
+          st <- get_st ;;
+          match as_float W st a, as_float W st b with
+          | Some x, Some y => ret (vInt (if f_gt x y then 1 else if f_eq x y then 0 else -1)%Z)
+          | _, _ => unsup "Float#<=> with a non-float operand"
+          end
+      | _ => tyerr "<=> requires at least 2 args"
+      end
   (* ---------- Map ---------- *)
   | B_Map_eq =>
       match args with
